@@ -58,7 +58,26 @@ def run_spec(spec, check_domain=True, b=None):
 
 
 def labels_of(spec):
+    if "lib" in spec:
+        return ["lib:" + spec["lib"], "lib-dt:%.4g" % spec["dt"]] + (["lib-programs"] if spec.get("progs") else [])
     return list(spec.get("labels", []))
+
+
+def run_any(case, check_domain=True):
+    """case is a ModelSpec or a library case ({"lib": ...}, see vlib.libcase); returns (b, res) like run_spec"""
+    if "lib" not in case:
+        return run_spec(case, check_domain=check_domain)
+    from . import libcase
+
+    quiet()
+    try:
+        P, ps, res, pre = libcase.run(case)
+    except Exception as e:
+        raise Discard("library case: atomica raised %s at %s" % (type(e).__name__, atomica_frame(e)))
+    if check_domain:
+        oracles.check_overflow(res)
+        oracles.check_junction_domain(res, pre)
+    return {"P": P, "ps": ps, "preflush": pre, "progset": None, "instructions": None}, res
 
 
 def preflush_domain(spec, pre):
